@@ -7,6 +7,7 @@
   crate's own compile-time assertion `size_of::<T>() <= MAX_PREALLOCATION`.
 -/
 import Proofs.RoundTrip
+import Proofs.Renorm
 namespace Scale.C02
 open Scale
 
@@ -22,6 +23,15 @@ theorem roundtrip_impl (ty : Ty) (v : Val) (hwf : wf ty v = true) (hcanon : cano
     (hlayout : layoutOk ty = true) (rest : Bytes) :
     ∃ bs, Impl.encodeTo ty v = .ok bs ∧ decode ty (bs ++ rest) = (.ok (norm ty v), rest) :=
   ⟨Spec.encode ty v, encodeTo_ref ty v hwf, decode_encode ty v hwf hcanon hlayout rest⟩
+
+/-- Without the ordering invariant: the encoding of **any** well-formed value of a type without
+    bit sequences — map/set entries in any order, with duplicate keys — decodes, consuming exactly
+    the encoding, to the value order-normalised at every level (`renorm`; the identity on values
+    that satisfy `canon`, by the theorem above). -/
+theorem roundtrip_any_order (ty : Ty) (raw : Val) (hw : widthsOk ty = true) (hlayout : layoutOk ty = true)
+    (hb : noBits ty = true) (hwf : wf ty raw = true) (rest : Bytes) :
+    decode ty (Spec.encode ty raw ++ rest) = (.ok (renorm ty raw), rest) :=
+  (exact_language ty hw hlayout hb _ rest _).mpr ⟨raw, hwf, rfl, rfl⟩
 
 /-- Heaps come back equal as multisets: the decoded content is a permutation of the encoded one. -/
 theorem heap_multiset (sz : Nat) (t : Ty) (vs : List Val) :
